@@ -5,22 +5,22 @@ package backend
 
 import (
 	"context"
-	"sync"
+	"sync/atomic"
 	"time"
 )
 
 // hooks for the external verification harness, compiled only with build tag `verif`
 
-var verifStoppedBackends sync.Map
-
-func (b *backend) verifStopped() bool {
-	_, ok := verifStoppedBackends.LoadAndDelete(b)
-	return ok
+// verifFields is the per-backend state of the hooks (no global registry: a stopped backend must become garbage)
+type verifFields struct {
+	stopped int32
 }
+
+func (b *backend) verifStopped() bool { return atomic.LoadInt32(&b.verif.stopped) == 1 }
 
 // StopForVerif stops the background loops of a backend built by NewBackend:
 // the sequencer returns and closes the watch channel (so the hub closes all watchers),
-// the retry loop returns at its next tick.
+// the retry loop returns at once.
 func StopForVerif(i Backend) {
 	b, ok := i.(*backend)
 	if !ok {
@@ -29,15 +29,11 @@ func StopForVerif(i Backend) {
 	if s, ok := b.asyncFifoRetry.(interface{ StopForVerif() }); ok {
 		s.StopForVerif()
 	}
-	verifStoppedBackends.Store(b, struct{}{})
+	atomic.StoreInt32(&b.verif.stopped, 1)
 }
 
-// ForgetForVerif drops the bookkeeping of a stopped backend so it can be collected
-func ForgetForVerif(i Backend) {
-	if b, ok := i.(*backend); ok {
-		verifStoppedBackends.Delete(b)
-	}
-}
+// ForgetForVerif is kept for callers of earlier versions of the hooks; there is nothing to forget any more
+func ForgetForVerif(i Backend) {}
 
 // SetRetryIntervalsForVerif overrides the retry / check interval used by backends created afterwards
 func SetRetryIntervalsForVerif(retry, check time.Duration) {
